@@ -551,7 +551,7 @@ def from_item(rel_file, name, level, modc, mname, cwd, alias=False):
             'src': stmt + '\n' + use + '\n', 'pos': [2, len(use)]}
 
 
-def gen_froms(rng, ents, fl, files, names, cap=26):
+def gen_froms(rng, ents, fl, files, names, cap=20):
     """`from <dots>[module] import name` statements of every level 1..depth+1 (dots only and with a module
     part) and absolute ones, in files of the tree; the name is a submodule of the addressed package, of a
     package one level off, or absent."""
@@ -583,11 +583,13 @@ def gen_froms(rng, ents, fl, files, names, cap=26):
         if len(comps) >= 2 and fl:
             f = rng.choice(fl)
             out.append(from_item(f, files[f], 0, comps[:-1], comps[-1], None))
+    import keyword
+    out = [i for i in out if all(c.isidentifier() and not keyword.iskeyword(c) for c in i['modc'] + [i['mname']])]
     rng.shuffle(out)
     return out[:cap]
 
 
-def fill_queries(rng, t, nnames=34, nrel=30, nlists=8, nassist=5):
+def fill_queries(rng, t, nnames=32, nrel=26, nlists=8, nassist=5):
     ents = t['entries']
     roots = list(dict.fromkeys(t['sources'] + t['extra'] + t.get('after', [])))
     names, files = module_names(ents, roots)
@@ -777,10 +779,13 @@ Definition FS t := fs_of_node (t_fs t).
 Definition LS t := ls_of_node (t_fs t).
 Inductive ogm := OSource (f : path) | OImported (flag : option bool) | OImportError | OOther.
 Inductive ofind := OFile (f : path) (ispkg src : bool) (parent : list str) | ONone | ONoFile | ONamespace | OSkip.
+Inductive ofrom := OTargets (l : list path) | OFromOther.
 Inductive olist := OList (l : list str) | OLErr | OLOther.
 Inductive q :=
 | QMod (name : list str) (o : ogm) (r : ofind)
 | QRel (name : list str) (file : path) (cwd : option path) (level : nat) (rest : list str) (o : nres) (r : option (list str * nres))
+| QFrom (name : list str) (file : path) (cwd : option path) (level : nat) (modc : list str) (mname : str)
+        (o : ofrom) (r : option (list str * nres * ofind))
 | QList (pkg : list str) (o : olist) (r : option (list str))
 | QAssist (level : nat) (rest : list str) (file : path) (withmod : bool) (attrs : option (list str)) (o : olist)
 | QSplit (s h t j : str).
@@ -814,6 +819,39 @@ Definition find_ok (t : tree) name (r : ofind) : bool :=
   | _, _ => false
   end.
 
+Fixpoint paths_eqb (a b : list path) : bool :=
+  match a, b with
+  | [], [] => true
+  | x :: a', y :: b' => path_eqb x y && paths_eqb a' b'
+  | _, _ => false
+  end.
+
+(* norm_package as called with an absolute file name or one relative to the working directory c *)
+Definition norm_any (t : tree) (cwd : option path) level rest file : nres :=
+  match cwd with
+  | None => norm_package (FS t) level rest file
+  | Some c => norm_package_rel (FS t) c level rest (skipn (List.length c) file)
+  end.
+
+(* ImportedName.resolve for `from <level dots><modc> import mname` in [file], all modules of the tree being
+   empty: the submodule <level dots><modc>.mname first, else the attribute mname of the (empty) module.
+   Some l = the source files go-to-definition shows; None = a non-source module is involved (not compared) *)
+Definition from_targets (t : tree) cwd level modc mname file : option (list path) :=
+  let sub := match norm_any t cwd level (modc ++ [mname]) file with
+             | NOk target => Some (get_module (FS t) SFX (t_loaded t) (t_full t) target)
+             | _ => None end in
+  match sub with
+  | Some (GSource f) => Some [f]
+  | Some GImportError | None =>
+      match norm_any t cwd level modc file with
+      | NOk pkg => match get_module (FS t) SFX (t_loaded t) (t_full t) pkg with
+                   | GSource _ | GImportError => Some []
+                   | _ => None end
+      | _ => Some []
+      end
+  | Some _ => None
+  end.
+
 Definition listed_dirs (t : tree) pkg :=
   match pkg with [] => t_short t | _ => next_dirs (impl_lookup (FS t) SFX (t_short t) pkg) end.
 
@@ -840,6 +878,31 @@ Definition code (c : tree * q) : nat :=
        | RFound (f, _, _) =>
            if path_eqb f file && dom (FS t) LSFX (t_full t) name && forallb (root_ok (FS t)) (t_full t) &&
               match cwd with None => true | Some c => root_ok (FS t) c end
+           then 4 else 0
+       | _ => 0 end)
+  | QFrom name file cwd level modc mname o r =>
+      (match from_targets t cwd level modc mname file, o with
+       | None, _ => 0
+       | Some l, OTargets l' => if paths_eqb l l' then 0 else 1
+       | Some _, OFromOther => 1
+       end) +
+      (match r with
+       | None => 0
+       | Some (package, ro, fo) =>
+           if nres_eqb (resolve_name level (modc ++ [mname]) package) ro &&
+              match ro with NOk resolved => find_ok t resolved fo | _ => true end
+           then 0 else 2
+       end) +
+      (match importlib_walk (FS t) LSFX (t_full t) name with
+       | RFound (f, _, pd) =>
+           if path_eqb f file && dom (FS t) LSFX (t_full t) name && forallb (root_ok (FS t)) (t_full t) &&
+              match cwd with None => true | Some c => root_ok (FS t) c end &&
+              match resolve_name level (modc ++ [mname]) (spec_parent name (f, true, pd)) with
+              | NOk target => dom (FS t) LSFX (t_full t) target
+              | _ => true end &&
+              match resolve_name level modc (spec_parent name (f, true, pd)) with
+              | NOk pkg => dom (FS t) LSFX (t_full t) pkg
+              | _ => true end
            then 4 else 0
        | _ => 0 end)
   | QList pkg o r =>
@@ -911,6 +974,18 @@ def build_cases(ctx, t, ct, tb, sres, ores, base, sfx_all):
         if wellformed(name):
             for b in base:
                 probe(listing, b, name.split('.'), sfx_all)
+    for it in ct.get('froms', []):
+        # every absolute name the statement can address (the harness only decides what to probe)
+        for r_ in ct['sources'] + ct['extra'] + ct.get('after', []):
+            if it['file'].startswith(r_ + '/'):
+                P = it['file'][len(r_) + 1:].split('/')[:-1]
+                k = len(P) - (it['level'] - 1) if it['level'] else 0
+                if it['level'] and k <= 0:
+                    continue
+                cand = (P[:k] if it['level'] else []) + it['modc'] + [it['mname']]
+                if all(cand) and wellformed('.'.join(cand)):
+                    for b in base:
+                        probe(listing, b, cand, sfx_all)
     for b in base:
         listing.setdefault(b, 'D')
     listing[tb] = 'D'
@@ -981,6 +1056,38 @@ def build_cases(ctx, t, ct, tb, sres, ores, base, sfx_all):
             {'file': fname, 'spec': spec, 'name': guess, 'supp': n, 'importlib': r,
              'file_name_relative_to': cwd, 'file_rel': fname[len(tbs):],
              'cwd_rel': None if not cwd else (cwd[len(tbs):] or '.')}, ok))
+    # ---- from-imports through go-to-definition
+    def ofind_term(f):
+        if f[0] == 'file':
+            return '(OFile %s %s %s %s)' % (pr.path(f[1]), coq_bool(f[2]), coq_bool(f[3]), cname(f[4]))
+        return {'none': 'ONone', 'nofile': 'ONoFile', 'namespace': 'ONamespace'}.get(f[0], 'OSkip')
+    tbs = tb.rstrip('/') + '/'
+    for it, g, r in zip(ct.get('froms', []), sres.get('froms', []), ores.get('froms', [])):
+        if not wellformed('.'.join(it['modc'] + [it['mname']])):
+            continue
+        if g[0] == 'ok':
+            try:
+                o = '(OTargets %s)' % coq_list([pr.path(x) for x in g[1]])
+            except ValueError:
+                o = 'OFromOther'
+        else:
+            o = 'OFromOther'
+        ok = None
+        if r is None:
+            rr = 'None'
+        else:
+            rr = '(Some (%s, %s, %s))' % (cname(r[0]) if r[0] else '[]', nres_term(r[1]), ofind_term(r[2]))
+            if r[1][0] != 'ok' or r[2][0] == 'none':
+                ok = (g == ['ok', []])
+            elif r[2][0] == 'file' and r[2][3]:
+                ok = (g == ['ok', [r[2][1]]])
+        cwd = it.get('cwd')
+        cases.append(Case(key, 'from', '(%s, QFrom %s %s %s %s %s %s %s %s)' % (
+            T, cname(it['name']), pr.path(it['file']), coq_option(pr.path(cwd)) if cwd else 'None', coq_nat(it['level']),
+            coq_list([cstr(c) for c in it['modc']]), cstr(it['mname']), o, rr),
+            {'statement': it['src'].split('\n')[0], 'file': it['file'], 'name': it['name'], 'supp_targets': g,
+             'importlib': r and [r[0], r[1], r[2][:2]], 'file_name_relative_to': cwd,
+             'item': dict(it, file=it['file'][len(tbs):], cwd=None if not cwd else (cwd[len(tbs):] or '.'))}, ok))
     # ---- package listings
     for i, (pkg, l, ch) in enumerate(zip(ct['lists'], sres['lists'], ores['children'])):
         if pkg and not wellformed(pkg):
@@ -1054,7 +1161,7 @@ def load_corpus():
                 obj = json.load(open(os.path.join(CORPUS, f)))
                 t = obj['tree']
                 t.setdefault('extra', [])
-                for k in ('names', 'rel', 'lists', 'assist'):
+                for k in ('names', 'rel', 'lists', 'assist', 'froms'):
                     t.setdefault(k, [])
                 t['id'] = 'c' + ''.join(ch for ch in f[:-5] if ch.isalnum())
                 t['_corpus'] = f
@@ -1144,7 +1251,8 @@ def evaluate(ctx, trees, base, strings=()):
 
 def tree_replay(t, case):
     return {'kind': case.kind, 'tree': {'entries': t['entries'], 'sources': t['sources'], 'extra': t.get('extra', []),
-                                        'after': t.get('after', []), 'preload': t.get('preload', [])},
+                                        'after': t.get('after', []), 'preload': t.get('preload', []),
+                                        'ood_tree': t.get('ood_tree', False)},
             'query': case.info}
 
 
@@ -1201,6 +1309,11 @@ def run(ctx):
         elif c.kind == 'assist':
             nontrivial = indom and c.info['supp'][0] == 'ok'
             ctx.histogram('assist', c.info['assist']['kind'] + ':' + c.info['supp'][0] + ('' if indom else '/out-of-domain'))
+        elif c.kind == 'from':
+            nontrivial = indom and c.info['importlib'] is not None
+            ctx.histogram('from', ('level%d' % c.info['item']['level']) + ('' if c.info['item']['modc'] else '/dots-only' if c.info['item']['level'] else '') +
+                          (':' + ('none' if c.info['importlib'] is None else c.info['importlib'][2][0] if c.info['importlib'][1][0] == 'ok' else 'ImportError')) +
+                          ('' if indom else '/out-of-domain'))
         elif c.kind == 'split':
             nontrivial = '.' in c.info['s']
         ctx.count((c.tree and tree_hash[c.tree], c.kind, json.dumps(c.info, sort_keys=True).replace(ctx.scratch, '')), nontrivial=nontrivial)
@@ -1219,38 +1332,49 @@ def run(ctx):
     cov['R_disagreements'] = len(r_bad)
     cov['direct_failures_in_domain'] = len(direct_bad)
 
+    # The property's quantifier: trees WITHOUT namespace packages and without a module file next to a package
+    # directory of the same name. Trees generated with such shapes (and the corpus tree of them) are evaluated
+    # as an extended domain: failures there are recorded, never raised as violations.
+    def stated(c):
+        return not (c.tree and by_id[c.tree].get('ood_tree'))
+
+    def rp(c):
+        t_ = by_id.get(c.tree) if c.tree else None
+        return tree_replay(t_, c) if t_ else {'kind': c.kind, 'query': c.info}
+
     reported = set()
-    for c in direct_bad[:12]:
+    for c in [x for x in direct_bad if not stated(x)][:8]:
         reported.add(id(c))
-        t = by_id.get(c.tree) if c.tree else None
-        ctx.violation('supp disagrees with importlib (%s): %s' % (c.kind, json.dumps(c.info)[:400]),
-                      tree_replay(t, c) if t else {'kind': c.kind, 'query': c.info})
-    rest_i = [c for c in i_bad if id(c) not in reported]
+        ctx.extension_failure('supp disagrees with importlib (%s): %s' % (c.kind, json.dumps(c.info)[:400]), rp(c))
+    for c in [x for x in direct_bad if stated(x)][:12]:
+        reported.add(id(c))
+        ctx.violation('supp disagrees with importlib (%s): %s' % (c.kind, json.dumps(c.info)[:400]), rp(c))
+    ext_i = [c for c in i_bad if not stated(c) and id(c) not in reported]
+    if ext_i:
+        ctx.extension_failure('(I) model/code disagreement on %d cases of trees outside the stated domain (first: %s %s)' % (
+            len(ext_i), ext_i[0].kind, json.dumps(ext_i[0].info)[:300]), dict(rp(ext_i[0]), correspondence='I'))
+    rest_i = [c for c in i_bad if stated(c) and id(c) not in reported and not (c.direct is False)]
     if rest_i:
-        # model and code disagree and the direct evaluator did not fail on these inputs in the domain:
-        # look for a property failure on the same trees outside the Coq domain filter as well
-        found = [c for c in rest_i if c.direct is False]
-        for c in found[:5]:
-            t = by_id.get(c.tree) if c.tree else None
-            ctx.violation('(I) model/code disagreement on an input where supp also disagrees with importlib '
-                          '(outside the proved domain) (%s): %s' % (c.kind, json.dumps(c.info)[:400]),
-                          tree_replay(t, c) if t else {'kind': c.kind, 'query': c.info})
-        if not found or len(found) < len(rest_i):
-            c = [x for x in rest_i if x.direct is not False][0] if [x for x in rest_i if x.direct is not False] else rest_i[0]
-            t = by_id.get(c.tree) if c.tree else None
-            ctx.violation('correspondence (I) Model.Imports vs supp.project no longer checks on %d cases (first: %s %s); '
-                          'theorems C07_* are about a model that is not the code' % (
-                              len(rest_i), c.kind, json.dumps(c.info)[:300]),
-                          dict(tree_replay(t, c) if t else {'kind': c.kind, 'query': c.info},
-                               correspondence='I', theorem='C07_get_module_agrees / C07_norm_package_agrees / C07_children_*'),
-                          found_input=False)
-    if r_bad:
-        c = r_bad[0]
-        t = by_id.get(c.tree) if c.tree else None
+        # model and code disagree inside the domain although supp agrees with importlib on these inputs (or the
+        # direct verdict does not apply): no failing input of the property, but the theorems no longer speak
+        # about this code
+        c = rest_i[0]
+        ctx.violation('correspondence (I) Model.Imports vs supp.project no longer checks on %d cases (first: %s %s); '
+                      'theorems C07_* are about a model that is not the code' % (
+                          len(rest_i), c.kind, json.dumps(c.info)[:300]),
+                      dict(rp(c), correspondence='I',
+                           theorem='C07_get_module_agrees / C07_norm_package_agrees / C07_children_*'),
+                      found_input=False)
+    r_ext = [c for c in r_bad if not stated(c)]
+    r_in = [c for c in r_bad if stated(c)]
+    if r_ext:
+        ctx.extension_failure('(R) reference model differs from importlib/pkgutil on %d cases of trees outside the stated '
+                              'domain (first: %s %s)' % (len(r_ext), r_ext[0].kind, json.dumps(r_ext[0].info)[:300]),
+                              dict(rp(r_ext[0]), correspondence='R'))
+    if r_in:
+        c = r_in[0]
         ctx.violation('correspondence (R) Model.Imports REF vs importlib/pkgutil no longer checks on %d cases (first: %s %s)' % (
-            len(r_bad), c.kind, json.dumps(c.info)[:300]),
-            dict(tree_replay(t, c) if t else {'kind': c.kind, 'query': c.info}, correspondence='R'),
-            found_input=False)
+            len(r_in), c.kind, json.dumps(c.info)[:300]), dict(rp(c), correspondence='R'), found_input=False)
     if not proof_ok:
         ctx.violation('proof obligations of Props/C07.v not discharged: %s' % (ctx.notes,),
                       {'kind': 'proof', 'theorem': 'Props/C07.v', 'notes': ctx.notes,
@@ -1274,6 +1398,7 @@ def replay(ctx, obj):
             f = f[f.index('/T/') + 3:].split('/', 1)[1] if '/T/' in f else f
         t['rel'] = [[f, q['name'], q['spec'], q.get('cwd_rel')]]
     t['lists'] = [q['pkg']] if r['kind'] == 'list' else []
+    t['froms'] = [q['item']] if r['kind'] == 'from' else []
     t['assist'] = []
     base = base_path()
     cases, codes, sfx, lsfx = evaluate(ctx, [t], base)
